@@ -18,8 +18,12 @@
   * `∀ b why, c.dec b ≠ .panic why` — the element decoder itself does not panic (true of every lawful codec);
   * `AllLawfulC cs`              — the tuple's components obey the trait laws `Lawful` (primitives, bool, arrays of them,
                                    derived structs/enums: Lemmas/WireCodecs). `heapless::Vec` / `heapless::String` components
-                                   are NOT lawful (they accept buffers shorter than PACKED_LEN) and a tuple holding one
-                                   panics on a short buffer: `tuple_unpack_total_counterexample`.
+                                   are NOT lawful (they accept buffers shorter than PACKED_LEN); the layout theorems
+                                   (`tuple_unpack_fields`, `tuple_roundtrip`, …) are about lawful components;
+  * `Modelled c`                 — any component type of the model: lawful ones, `()`, `heapless::Vec` / `[T; N]` over a
+                                   modelled element of non-zero size, `heapless::String`. `tuple_unpack_total` (never a
+                                   panic) holds for ALL of them since fix-c19-tuple-short (`buf.get(PACKED_LEN..)` instead of
+                                   `&buf[PACKED_LEN..]`); the former witnesses are `tuple_unpack_short_heapless_fixed`.
 -/
 import EcModel.Lemmas.WireImpls
 
@@ -258,19 +262,52 @@ theorem tuple_unpack_short_error (cs : List Codec) (hl : AllLawfulC cs) (buf : L
     ∃ e, decTuple cs buf = .err e :=
   decTuple_short cs buf hl hlen
 
-/-- Over lawful components the walk never panics, whatever the buffer: a component that decoded successfully was given at
-    least `PACKED_LEN` bytes, so `&buf[PACKED_LEN..]` is in range. -/
-theorem tuple_unpack_total (cs : List Codec) (hl : AllLawfulC cs) (buf : List Nat) (why : String) :
-    decTuple cs buf ≠ .panic why :=
-  decTuple_total cs buf why hl
+/-- The component types a tuple can be built from, as far as the model knows them: every lawful codec (primitives, bool,
+    derived structs and enums, arrays of them), `()`, `heapless::Vec<T, N>` and `[T; N]` over a modelled element type of
+    non-zero size, `heapless::String<N>`. -/
+inductive Modelled : Codec → Prop
+  | lawful {c : Codec} : Lawful c → Modelled c
+  | unit : Modelled Codec.unitTy
+  | hvec {c : Codec} (n : Nat) : Modelled c → 0 < c.len → Modelled (Codec.hvec c n)
+  | hstr (n : Nat) : Modelled (Codec.hstr n)
+  | array {c : Codec} (n : Nat) : Modelled c → 0 < c.len → Modelled (Codec.array c n)
 
-/-- The hypothesis is needed. `heapless::Vec<u8, N>` and `heapless::String<N>` are `EtherCrabWireReadSized` with
-    `PACKED_LEN = N` but happily decode FEWER than N bytes, so a tuple with such a component panics on a short buffer:
-    `<(heapless::Vec<u8, 4>, u8)>::unpack_from_slice(&[1, 2])` and `<(heapless::String<4>, u8)>::unpack_from_slice(b"ab")`
-    index `&buf[4..]` of a 2-byte slice. (Known finding `c19/impl-tuple-varlen-short-panic`.) -/
-theorem tuple_unpack_total_counterexample :
-    decTuple [Codec.hvec (Codec.uN 1) 4, Codec.uN 1] [1, 2] = .panic "slice start out of range" ∧
-    decTuple [Codec.hstr 4, Codec.uN 1] [0x61, 0x62] = .panic "slice start out of range" := ⟨by rfl, by rfl⟩
+/-- No modelled component decoder panics, whatever the buffer. -/
+theorem modelled_dec_total {c : Codec} (h : Modelled c) : DecTotal c := by
+  induction h with
+  | lawful hl => exact hl.dec_total
+  | unit => intro b why; simp [Codec.unitTy]
+  | hvec n _ hpos ih => exact fun b why => heapless_vec_unpack_total _ hpos ih n b why
+  | hstr n => exact fun b why => (heapless_string_unpack n b).1 why
+  | array n _ hpos ih =>
+    intro b why
+    have := (array_unpack_exact _ n b).2.2 hpos ih why
+    rwa [arrayDecImpl_eq_codec] at this
+
+/-- **tuple_unpack_total.** For EVERY buffer and every tuple of modelled components — lawful or not, `heapless::Vec` and
+    `heapless::String` included — `unpack_from_slice` returns a value or an error, never a panic: the walk advances with
+    the checked `buf.get(PACKED_LEN..)`, so a component that decoded successfully from fewer than `PACKED_LEN` bytes is
+    answered with `ReadBufferTooShort`. -/
+theorem tuple_unpack_total (cs : List Codec) (hm : ∀ c ∈ cs, Modelled c) (buf : List Nat) :
+    (∀ why, decTuple cs buf ≠ .panic why) ∧ ((∃ vs, decTuple cs buf = .ok vs) ∨ (∃ e, decTuple cs buf = .err e)) := by
+  have ht : ∀ why, decTuple cs buf ≠ .panic why :=
+    fun why => decTuple_total' cs buf why (fun c hc => modelled_dec_total (hm c hc))
+  refine ⟨ht, ?_⟩
+  cases h : decTuple cs buf with
+  | ok vs => exact Or.inl ⟨vs, rfl⟩
+  | err e => exact Or.inr ⟨e, rfl⟩
+  | panic w => exact absurd h (ht w)
+
+/-- The witnesses of the former defect (known finding c19/impl-tuple-varlen-short-panic, repaired by fix-c19-tuple-short):
+    `<(heapless::Vec<u8, 4>, u8)>::unpack_from_slice(&[1, 2])`, `<(heapless::String<4>, u8)>::unpack_from_slice(b"ab")`
+    and `<(u8, heapless::Vec<u8, 2>)>::unpack_from_slice(&[1, 2])` indexed `&buf[PACKED_LEN..]` out of range; they are
+    `Err(ReadBufferTooShort)` now, and with enough bytes nothing changed. -/
+theorem tuple_unpack_short_heapless_fixed :
+    decTuple [Codec.hvec (Codec.uN 1) 4, Codec.uN 1] [1, 2] = .err .readBufferTooShort ∧
+    decTuple [Codec.hstr 4, Codec.uN 1] [0x61, 0x62] = .err .readBufferTooShort ∧
+    decTuple [Codec.uN 1, Codec.hvec (Codec.uN 1) 2] [1, 2] = .err .readBufferTooShort ∧
+    decTuple [Codec.hvec (Codec.uN 1) 4, Codec.uN 1] [1, 2, 3, 4, 5] = .ok [.seq [.int 1, .int 2, .int 3, .int 4], .int 5] :=
+  ⟨by rfl, by rfl, by rfl, by rfl⟩
 
 /-- Consequence of `heapless::String` taking the whole remaining buffer as the string: a tuple with a
     `heapless::String<N>` in front of another component of non-zero size NEVER decodes, whatever the buffer. -/
@@ -409,6 +446,23 @@ example : AllLawfulC [Codec.uN 4, Codec.uN 1, Codec.bool, Codec.array (Codec.uN 
 
 example : validTuple [Codec.uN 4, Codec.uN 1, Codec.bool] [.int 0xaabbccdd, .int 0x99, .bool true] :=
   ⟨⟨0xaabbccdd, rfl, by decide⟩, ⟨0x99, rfl, by decide⟩, ⟨true, rfl⟩, trivial⟩
+
+/-- `tuple_unpack_total` is not vacuous: `(heapless::Vec<u8, 4>, u8, heapless::String<3>, [heapless::Vec<u16, 2>; 2], ())`. -/
+example : ∀ c ∈ [Codec.hvec (Codec.uN 1) 4, Codec.uN 1, Codec.hstr 3, Codec.array (Codec.hvec (Codec.uN 2) 2) 2, Codec.unitTy],
+    Modelled c := by
+  intro c hc
+  simp only [List.mem_cons, List.mem_nil_iff, or_false] at hc
+  rcases hc with rfl | rfl | rfl | rfl | rfl
+  · exact .hvec 4 (.lawful (lawful_uN 1)) (by decide)
+  · exact .lawful (lawful_uN 1)
+  · exact .hstr 3
+  · exact .array 2 (.hvec 2 (.lawful (lawful_uN 2)) (by decide)) (by decide)
+  · exact .unit
+
+/-- Why `tuple_unpack_short_error` asks for lawful components: a `heapless::Vec` decodes the EMPTY buffer to the empty
+    vector, and the walk does not advance over an empty buffer. -/
+example : decTuple [Codec.hvec (Codec.uN 1) 4, Codec.hvec (Codec.uN 1) 4] [1, 2, 3, 4] =
+    .ok [.seq [.int 1, .int 2, .int 3, .int 4], .seq []] := by rfl
 
 /-- impls.rs' own tests `tuple_decode` / `tuple_encode`. -/
 example : decTuple [Codec.uN 4, Codec.uN 1] [0xaa, 0xbb, 0xcc, 0xdd, 0x99] = .ok [.int 0xddccbbaa, .int 0x99] := by rfl
